@@ -328,11 +328,27 @@ def enumerate_ops(run, seed, seeds):
             yield f
         parts = split_json(data)
         if parts is not None:
-            nn = len(json_nodes(parts[0]))
+            nodes = json_nodes(parts[0])
+            nn = len(nodes)
             picks = range(nn) if not quick else rng.sample(range(nn), min(nn, 40))
             for idx in picks:
                 for act in ("del", "big", "neg", "inc", "null", "str", "list", "dict"):
                     yield ("json", [idx, act])
+            # two faults in one object: a key dropped AND a sibling number inflated / negated (a
+            # size that is only trusted once the field that bounds it is gone)
+            pairs = []
+            for i1, (h1, k1) in enumerate(nodes):
+                if not isinstance(h1, dict):
+                    continue
+                for i2, (h2, k2) in enumerate(nodes):
+                    if h2 is h1 and i2 != i1 and isinstance(h1[k2], (int, float)) and not isinstance(h1[k2], bool):
+                        pairs.append((i1, i2))
+            if quick and len(pairs) > 40:
+                pairs = rng.sample(pairs, 40)
+            for i1, i2 in pairs:
+                yield ("json2", [i1, "del", i2, "big"])
+                if not quick:
+                    yield ("json2", [i1, "del", i2, "neg"])
     # chunk delete / duplicate / swap
     nchunk = 12 if quick else 400
     for _ in range(nchunk):
@@ -372,7 +388,7 @@ def build_cases(run, seeds):
                 routes += [(e, "file") for e in seed["entries"] if e != "load"]
             # size-field faults always also go through the by-path route: read(n) on a real
             # file allocates n bytes up front, BytesIO does not
-            if op == "valid" or h % 8 == 1 or op in ("u32", "u16", "token", "u32xor", "u32add", "json"):
+            if op == "valid" or h % 8 == 1 or op in ("u32", "u16", "token", "u32xor", "u32add", "json", "json2"):
                 routes += [(seed["entries"][h % len(seed["entries"])], "path")]
             if op == "ref" or (op == "zipinner" and args[1] == "ref"):
                 # only a load by name has a directory to resolve other files in
@@ -402,7 +418,7 @@ def run_children(run, seeds, cases, work):
     # cut short by the budget on a loaded machine is still a uniform sample of the enumeration
     # phase 1: valid files and size-field / token faults (where allocation and seek arithmetic
     # go wrong); phase 2: everything else.  A budget cut removes part of phase 2 only.
-    PRIO = ("valid", "u32", "u16", "u32xor", "u32add", "token", "json", "tokcopy", "ref", "zipinner")
+    PRIO = ("valid", "u32", "u16", "u32xor", "u32add", "token", "json", "json2", "tokcopy", "ref", "zipinner")
     prio = [c for c in cases if c[2] in PRIO]
     rest = [c for c in cases if c[2] not in PRIO]
     batches = []
@@ -544,7 +560,7 @@ def run_children(run, seeds, cases, work):
 def op_class(op, args=None):
     if op == "zipinner" and args:
         return "zip_member:" + op_class(args[1])
-    return {"tokcopy": "id_copy", "json": "json", "ref": "asset_ref",
+    return {"tokcopy": "id_copy", "json": "json", "json2": "json_pair", "ref": "asset_ref",
             "sub": "byte", "xor": "byte", "u32": "field", "u16": "field", "u32xor": "field", "u32add": "field", "token": "token",
             "delete": "chunk", "dup": "chunk", "swap": "chunk", "noise": "noise", "multi": "multi",
             "raw": "noise"}.get(op, op)
